@@ -7,7 +7,9 @@ import (
 	"fmt"
 	"io"
 	"log/slog"
+	"runtime"
 	"sync"
+	"sync/atomic"
 )
 
 // wop is one call seen by a writer.
@@ -192,7 +194,15 @@ type LogRec struct {
 	Level slog.Level
 	Msg   string
 	Attrs map[string]string
+	Seq   int64 /* Global order of completion (see seq). */
 }
+
+// seq orders log records and the return of Broker.Do.
+var seq atomic.Int64
+
+// yieldInHandle makes the capturing handler give up the processor before it
+// stores a record, as a handler writing to a file may.
+var yieldInHandle = true
 
 type logStore struct {
 	mu   sync.Mutex
@@ -239,6 +249,11 @@ func (h *logHandler) Handle(_ context.Context, r slog.Record) error {
 		rec.Attrs[a.Key] = a.Value.String()
 		return true
 	})
+	if yieldInHandle {
+		runtime.Gosched()
+		runtime.Gosched()
+	}
+	rec.Seq = seq.Add(1)
 	h.st.mu.Lock()
 	h.st.recs = append(h.st.recs, rec)
 	if nil != h.jh {
